@@ -43,8 +43,13 @@ fn set_nonblocking<T: AsRawFd>(fd: &T, nb: bool) -> io::Result<()> {
 /// this type can be used in coroutine context without blocking the thread
 #[derive(Debug)]
 pub struct CoIo<T: AsRawFd> {
-    inner: T,
+    // `io` must be dropped BEFORE `inner` (fields drop in declaration order): `IoData::drop` removes the fd from its epoll
+    // instance, dropping `inner` closes it. The other way round the fd number is free in between: another thread can open a
+    // new socket that gets the same number and register it, and the late EPOLL_CTL_DEL then removes the NEW socket's
+    // registration – that socket never sees a readiness event again (its readers / writers block for ever). For a
+    // `try_clone`d descriptor the late delete fails (EBADF) and leaves a registration that points at freed event data.
     io: io_impl::IoData,
+    inner: T,
     #[cfg(feature = "io_timeout")]
     read_timeout: AtomicDuration,
     #[cfg(feature = "io_timeout")]
